@@ -207,7 +207,7 @@ def mk_recv_app(cx, cls=appv2.NDNApp, logger='ndn.appv2'):
 @contract
 class v2_receive(Contract):
     fn = appv2.NDNApp._receive
-    props = ('C06', 'C10')
+    props = ('C06', 'C10', 'C03')
     doc = ('appv2 _receive: whatever bytes a transport delivers, reception returns normally (no exception escapes) and the '
            'packet is dropped or dispatched; an envelope with a Nack header leads to exactly one _on_nack(name of the '
            'fragment, precisely the reason code of that header - NONE when it has none) and nothing else; an envelope without Nack dispatches the fragment by its own type exactly '
@@ -225,6 +225,13 @@ class v2_receive(Contract):
         oi = cx.run.ghost.get('recv.on_interest_calls', [])
         out = {'returns_none': result is None,
                'at_most_one_dispatch': len(calls) + len(oi) <= 1}
+        # a wrapped network packet is processed exactly as the same packet received bare: what is handed on as the raw
+        # packet (its hash decides implicit-digest Interests) is the network packet itself, not the envelope
+        inst0 = cx.run.ghost.get('lp.parsed')
+        want_raw = inst0.cache.get('fragment') if inst0 is not None else data
+        for what, *a in calls:
+            if what == '_on_data':
+                out['raw_packet_is_the_network_packet_itself'] = a[1] is want_raw
         for what, *a in calls:
             if what == '_on_nack':
                 from pyvc.values import OptInt
